@@ -48,7 +48,7 @@ func codeOfNil(v nilness.ValueNilness) int { return int(v.Inner)*5 + int(v.Outer
 // n5Lat: one component of the nilness lattice (Inner = Outer), through the real Merge.
 type n5Lat struct{}
 
-func (n5Lat) Ident() int         { return codeOfNil(realNilIdent(struct{}{})) % 5 }
+func (n5Lat) Ident() int           { return codeOfNil(realNilIdent(struct{}{})) % 5 }
 func (n5Lat) Equals(a, b int) bool { return a == b }
 func (n5Lat) Merge(a, b int) int {
 	r := realNilMerge(struct{}{}, nilness.ValueNilness{Inner: nilness.Nilness(a), Outer: nilness.Nilness(a)},
@@ -59,7 +59,7 @@ func (n5Lat) Merge(a, b int) int {
 // flatLat: constant propagation. 0 = bottom (Ident), 1 = top, c+2 = constant c.
 type flatLat struct{}
 
-func (flatLat) Ident() int          { return 0 }
+func (flatLat) Ident() int           { return 0 }
 func (flatLat) Equals(a, b int) bool { return a == b }
 func (flatLat) Merge(a, b int) int {
 	switch {
@@ -76,30 +76,83 @@ func (flatLat) Merge(a, b int) int {
 // andElem: one bit under intersection; Ident = 1 (not the zero value).
 type andElem struct{}
 
-func (andElem) Ident() int          { return 1 }
+func (andElem) Ident() int           { return 1 }
 func (andElem) Equals(a, b int) bool { return a == b }
-func (andElem) Merge(a, b int) int  { return a & b }
+func (andElem) Merge(a, b int) int   { return a & b }
 
 // orElem: one bit under union.
 type orElem struct{}
 
-func (orElem) Ident() int          { return 0 }
+func (orElem) Ident() int           { return 0 }
 func (orElem) Equals(a, b int) bool { return a == b }
-func (orElem) Merge(a, b int) int  { return a | b }
+func (orElem) Merge(a, b int) int   { return a | b }
 
 // orBits: uint64 bitset under union (as in the package's own tests).
 type orBits struct{}
 
-func (orBits) Ident() uint64             { return 0 }
-func (orBits) Equals(a, b uint64) bool   { return a == b }
-func (orBits) Merge(a, b uint64) uint64  { return a | b }
+func (orBits) Ident() uint64            { return 0 }
+func (orBits) Equals(a, b uint64) bool  { return a == b }
+func (orBits) Merge(a, b uint64) uint64 { return a | b }
+
+// ---- lattices whose Ident() is NOT the Go zero value of the fact type (a solver that lets a
+// zero-valued placeholder take part in a merge goes unnoticed with all the lattices above)
+
+// andBits: uint64 bitset under intersection ("must" analysis); Ident = all ones.
+type andBits struct{}
+
+func (andBits) Ident() uint64            { return ^uint64(0) }
+func (andBits) Equals(a, b uint64) bool  { return a == b }
+func (andBits) Merge(a, b uint64) uint64 { return a & b }
+
+// orInv: union of sets stored complemented (bit i set = element i absent); Ident = all ones.
+type orInv struct{}
+
+func (orInv) Ident() uint64            { return ^uint64(0) }
+func (orInv) Equals(a, b uint64) bool  { return a == b }
+func (orInv) Merge(a, b uint64) uint64 { return a & b }
+
+// cpArr: constant propagation over up to 4 variables in a fixed-size array. A cell stores
+// code^1, i.e. bottom (code 0, the Ident) is stored as 1 and the zero value of the array
+// means "top everywhere".
+type cpVec [4]uint8
+
+type cpArr struct{}
+
+func (cpArr) Ident() cpVec           { return cpVec{1, 1, 1, 1} }
+func (cpArr) Equals(a, b cpVec) bool { return a == b }
+func (cpArr) Merge(a, b cpVec) cpVec {
+	var r cpVec
+	for i := range r {
+		r[i] = uint8(flatLat{}.Merge(int(a[i]^1), int(b[i]^1))) ^ 1
+	}
+	return r
+}
+
+// aoElem: product of one "must" bit and one "may" bit, code = 2*must + may; Ident = 2.
+type aoElem struct{}
+
+func (aoElem) Ident() int           { return 2 }
+func (aoElem) Equals(a, b int) bool { return a == b }
+func (aoElem) Merge(a, b int) int   { return (((a >> 1) & (b >> 1)) << 1) | ((a | b) & 1) }
+
+// aoProd: the same product lattice over bit vectors: (must-set under intersection, may-set
+// under union); Ident = (all ones, empty).
+type aoFact struct{ must, may uint64 }
+
+type aoProd struct{}
+
+func (aoProd) Ident() aoFact           { return aoFact{^uint64(0), 0} }
+func (aoProd) Equals(a, b aoFact) bool { return a == b }
+func (aoProd) Merge(a, b aoFact) aoFact {
+	return aoFact{a.must & b.must, a.may | b.may}
+}
 
 // bitsLat: int bitset under union (sparse solver).
 type bitsLat struct{}
 
-func (bitsLat) Ident() int          { return 0 }
+func (bitsLat) Ident() int           { return 0 }
 func (bitsLat) Equals(a, b int) bool { return a == b }
-func (bitsLat) Merge(a, b int) int  { return a | b }
+func (bitsLat) Merge(a, b int) int   { return a | b }
 
 func printTable() {
 	var rows []string
@@ -159,6 +212,8 @@ func lawsLine(line string) string {
 			return lawsGeneric[dfa.MapLattice[int, int, n5Lat]](tok[0], args, parseGoMap, showGoMap)
 		case "or":
 			return lawsGeneric[dfa.MapLattice[int, int, orElem]](tok[0], args, parseGoMap, showGoMap)
+		case "ao":
+			return lawsGeneric[dfa.MapLattice[int, int, aoElem]](tok[0], args, parseGoMap, showGoMap)
 		}
 	case "dm":
 		switch el {
@@ -170,6 +225,8 @@ func lawsLine(line string) string {
 			return lawsGeneric[dfa.DenseMapLattice[int, orElem]](tok[0], args, parseSlice, showSlice)
 		case "and":
 			return lawsGeneric[dfa.DenseMapLattice[int, andElem]](tok[0], args, parseSlice, showSlice)
+		case "ao":
+			return lawsGeneric[dfa.DenseMapLattice[int, aoElem]](tok[0], args, parseSlice, showSlice)
 		case "nil":
 			return lawsGeneric[dfa.DenseMapLattice[nilness.ValueNilness, nilLat]](tok[0], args, parseNilSlice, showNilSlice)
 		}
